@@ -1,4 +1,7 @@
 -- Root of the `Sonic` library: generated tables, specs, models, proofs, property theorems.
 import Sonic.Gen.Tables
 import Sonic.Driver
+import Sonic.Props.C05
 import Sonic.Props.C08
+import Sonic.Props.C09
+import Sonic.Props.C14
